@@ -197,12 +197,17 @@ func defaultValueForType(schemas ast.Schemas, typeDef ast.Type, importModule mod
 
 				value := v
 				if field.Type.IsRef() {
+					fieldType := field.Type
 					var fieldOverrides *orderedmap.Map[string, any]
 					if overrides, ok := value.(map[string]any); ok {
 						fieldOverrides = orderedmap.FromMap(overrides)
+					} else if value != nil {
+						// the override is the default of the referred type (an enum member)
+						fieldType = field.Type.DeepCopy()
+						fieldType.Default = value
 					}
 
-					value = defaultValueForType(schemas, field.Type, importModule, fieldOverrides)
+					value = defaultValueForType(schemas, fieldType, importModule, fieldOverrides)
 				}
 
 				extraDefaults = append(extraDefaults, fmt.Sprintf("%s=%s", formatIdentifier(k), formatValue(value)))
